@@ -19,7 +19,7 @@
 #else
 #define PDS_MASK_REQ __CPROVER_requires(__CPROVER_is_fresh(mask_out, sizeof(OUT_STR))) \
                      __CPROVER_requires(mask_out->cap <= VSTR_MAXCAP && mask_out->size <= mask_out->cap && mask_out->cap >= 4 * s_size + C09_WIN)
-#define PDS_MASK_ASSIGNS , mask_out->size, mask_out->nw, __CPROVER_object_upto(mask_out->w, C09_WIN)
+#define PDS_MASK_ASSIGNS , mask_out->size, mask_out->nw, mask_out->first, __CPROVER_object_upto(mask_out->w, C09_WIN)
 #endif
 
 void parse_data_string(OUT_STR* data_out, const char* s, size_t s_size, OUT_STR* mask_out, uint64_t flags)
@@ -36,6 +36,6 @@ __CPROVER_ensures(data_out->size <= 4 * s_size)
 __CPROVER_ensures(mask_out != 0 ==> mask_out->size == data_out->size)
 __CPROVER_assigns(verif_exc, g_end, data, mask, in, chr, reading_string, reading_unicode_string, reading_comment, reading_multiline_comment,
                   reading_high_nybble, reading_filename, big_endian, mask_enabled, allow_files, g_returned, g_n, g_c0, g_c1, g_c2, g_c3, g_st_calls, g_st_arg, g_st_end, g_st_base, g_st_kind, g_num, g_dbl, g_flt, g_load_calls,
-                  data_out->size, data_out->nw, __CPROVER_object_upto(data_out->w, C09_WIN) PDS_MASK_ASSIGNS);
+                  data_out->size, data_out->nw, data_out->first, __CPROVER_object_upto(data_out->w, C09_WIN) PDS_MASK_ASSIGNS);
 
 #endif
